@@ -37,9 +37,9 @@ type FFile struct {
 	headerfs.File
 	Name_ string
 	// one-shot faults
-	WriteFailAt  int64 // >= 0: next Write stores this many bytes, then fails
-	TruncFail    bool
-	SyncFail     bool
+	WriteFailAt int64 // >= 0: next Write stores this many bytes, then fails
+	TruncFail   bool
+	SyncFail    bool
 	// OnStep is called after every completed durable step.
 	OnStep func(file string, kind string, arg int64)
 	// BeforeWrite is called before a Write with the data.
@@ -202,12 +202,12 @@ func CopyDir(src, dst string) error {
 // hashes (the order the index sorts batches in); filter tokens start at
 // FilterBase; 0 is "unknown bytes".
 type Pool struct {
-	Headers []*wire.BlockHeader // index = token-1
-	Hashes  []chainhash.Hash
-	Filters []chainhash.Hash // index = token-FilterBase
-	byHash  map[chainhash.Hash]int64
-	byFilt  map[chainhash.Hash]int64
-	Genesis int64 // token of the genesis block
+	Headers       []*wire.BlockHeader // index = token-1
+	Hashes        []chainhash.Hash
+	Filters       []chainhash.Hash // index = token-FilterBase
+	byHash        map[chainhash.Hash]int64
+	byFilt        map[chainhash.Hash]int64
+	Genesis       int64 // token of the genesis block
 	GenesisFilter int64
 }
 
